@@ -141,6 +141,7 @@ def check(ctx):
     ctx.attempt(_construct_defuse, construct)
     ctx.attempt(_siblings, trs_to_dict, construct)
     ctx.attempt(_eq_hash)
+    ctx.attempt(_scrub_order)
     ctx.attempt(forward.check_all, module_suffixes=('trs.trs', 'tract.tract'))
     ctx.attempt(common.embedded_case_consistency, modules=('trs.trs',))
     ctx.attempt(common.clause_purity, [f for f in ctx.repo.funcs.values() if f.module.name.endswith(('trs.trs',))])
@@ -306,15 +307,49 @@ def _siblings(ctx, trs_to_dict, construct):
             key="SIB|construct_trs|twp-rge")
 
 
+def _scrub_order(ctx):
+    """construct_trs.scrub splits the direction letter off before the OCR
+    scrub runs: the scrub turns 's'/'S' into '5', so a direction test on
+    scrubbed text no longer sees a south township."""
+    sc = ctx.repo.func('TRS.construct_trs.scrub')
+    tests = [c for c in walk_local(sc.node) if isinstance(c, ast.Call) and isinstance(c.func, ast.Attribute)
+             and c.func.attr in ('endswith', 'startswith')]
+    construct = 'construct_trs.scrub: the direction letter is looked for in the text as given (before the OCR scrub)'
+    if not tests:
+        ctx.undecided('ORDER', construct, 'no endswith() direction test recognised')
+        return
+    for c in tests:
+        prov = flow.provenance(sc.node, c.func.value)
+        scrubbed = any(x.split('.')[-1] == 'ocr_scrub_alpha_to_num' for x in flow.prov_calls(prov))
+        ctx.check(not scrubbed, 'ORDER', construct, f"`{norm(c)[:60]}`",
+                  f"`{norm(c)[:60]}` tests text that went through ocr_scrub_alpha_to_num(): a trailing 's' has become "
+                  f"'5' by then, so '1s' is built as township 15 with the default direction",
+                  key="ORDER|construct_trs.scrub|direction-before-ocr", where=common.loc(sc, c))
+
+
 def _eq_hash(ctx):
     eq = ctx.repo.func('TRS.__eq__')
     hs = ctx.repo.func('TRS.__hash__')
     t = ' '.join(norm(s) for s in eq.node.body if not isinstance(s, ast.Expr))
     ctx.shape('isinstance(other, TRS)' in t and 'return self.trs == other.trs' in t, 'DEFUSE',
               'TRS.__eq__ compares .trs of two TRS objects')
+    # equality is by value of the standard-form string: every returned
+    # comparison of __eq__ uses ==, on attributes that __hash__ hashes too
+    rets = [r.value for r in walk_local(eq.node) if isinstance(r, ast.Return) and r.value is not None]
+    cmps = [c for r in rets for c in ast.walk(r) if isinstance(c, ast.Compare)]
+    ident = [c for c in cmps if any(isinstance(o, (ast.Is, ast.IsNot)) for o in c.ops)
+             and not any(isinstance(x, ast.Constant) and x.value is None for x in [c.left] + c.comparators)]
+    hashed = {n.attr for n in ast.walk(hs.node) if isinstance(n, ast.Attribute) and norm(n.value) == 'self'}
+    compared = {n.attr for c in cmps for n in ast.walk(c) if isinstance(n, ast.Attribute) and norm(n.value) == 'self'}
+    ctx.tri(bool(cmps) and not ident and compared <= hashed and bool(compared), bool(ident) or (bool(compared) and not compared & hashed),
+            'DEFUSE', 'TRS.__eq__ is value equality on what __hash__ hashes',
+            detail_bad=(f"`{norm(ident[0])}` compares object identity: two TRS built from differently spelled but equal "
+                        f"input (or with the cache off) are unequal although their hashes agree" if ident else
+                        f"__eq__ compares {sorted(compared)} but __hash__ hashes {sorted(hashed)}"),
+            key="DEFUSE|TRS.__eq__|" + ('identity' if ident else 'attrs'), where=common.loc(eq, ident[0]) if ident else eq.loc)
     t = ' '.join(norm(s) for s in hs.node.body)
-    ctx.check(t == 'return hash(self.trs)', 'DEFUSE', 'TRS.__hash__ hashes .trs',
-              detail_bad=f"__hash__ is `{t}`", key="DEFUSE|TRS.__hash__")
+    ctx.tri(t == 'return hash(self.trs)', 'trs' not in hashed and '_TRS__trs' not in hashed, 'DEFUSE', 'TRS.__hash__ hashes .trs',
+            detail_bad=f"__hash__ is `{t}`: equal TRS strings no longer hash equal", key="DEFUSE|TRS.__hash__")
     init = ctx.repo.func('TRS.__init__')
     t = ' '.join(norm(s) for s in init.node.body)
     ok = any(isinstance(n, ast.If) and isinstance(n.test, ast.Compare)
